@@ -3,6 +3,7 @@ import WhatIs.Base.Info
 import WhatIs.Base.Res
 import WhatIs.Model.Base64
 import WhatIs.Model.Asn1Raw
+import WhatIs.Gen.PemFacts
 /-
   Model/DerRoute.lean — mirror of `parseDERData` (internal/file/der.go: the seven typed trials in a fixed
   order), `parsePEMBlock` (internal/file/pem.go: the label switch), `ASN1File` and `Base64ASN1File`
@@ -39,11 +40,25 @@ def labelType (label : Bytes) : Option DerType :=
 
 def unknownPEM : Info := .mk (strBytes "unknown PEM data") [] []
 
+/-- what a PEM block says when the parser its label calls for refuses the body (`describeUnparsedDER`): what the same
+    bytes get in a DER file — another recognised structure, else the generic dump — and "unknown PEM data" only when
+    nothing describes them.  `fallsBack` = regenerated fact `Gen.pemUnparsedFallsBack` (before the repair of D71 a
+    refused body was always "unknown PEM data"). -/
+def unparsedB (fallsBack : Bool) (acc : DerType → Bytes → Option Info) (body : Bytes) : Info :=
+  if fallsBack then
+    match derRoute acc body with
+    | some i => i
+    | none => (Asn1.dump body).getD unknownPEM
+  else unknownPEM
+
 /-- `parsePEMBlock` for the labels above (EC PARAMETERS / OPENSSH PRIVATE KEY have no DER trial) -/
-def pemBlockRoute (acc : DerType → Bytes → Option Info) (label body : Bytes) : Info :=
+def pemBlockRouteB (fallsBack : Bool) (acc : DerType → Bytes → Option Info) (label body : Bytes) : Info :=
   match labelType label with
-  | some t => (acc t body).getD unknownPEM
+  | some t => (acc t body).getD (unparsedB fallsBack acc body)
   | none => unknownPEM
+
+def pemBlockRoute (acc : DerType → Bytes → Option Info) (label body : Bytes) : Info :=
+  pemBlockRouteB Gen.pemUnparsedFallsBack acc label body
 
 /-- `ASN1File`: a recognised type, else the generic dump, else "unknown ASN.1 data" -/
 def asn1File (acc : DerType → Bytes → Option Info) (d : Bytes) : Info :=
